@@ -23,7 +23,7 @@ import random
 
 PROPERTY = "C14"
 TIERS = {
-    "quick": dict(seeds=160, soft_s=170, hard_s=1500, per_seed_s=900, init_s=600, k=2),
+    "quick": dict(seeds=320, soft_s=170, hard_s=1500, per_seed_s=900, init_s=600, k=2),
     "thorough": dict(seeds=12800, soft_s=3000, hard_s=5400, per_seed_s=1200, init_s=600, k=4),
 }
 RULE = ("one evaluation = one staged join_pmappings call (all accelerations on) on the pmappings of a "
